@@ -55,7 +55,14 @@ func checkPopulateComplete(p *Program, r *Result, rule string) {
 			}
 			for _, b := range fn.Blocks {
 				ret, ok := b.Instrs[len(b.Instrs)-1].(*ssa.Return)
-				if !ok || len(ret.Results) != 2 || !isNilConst(ret.Results[1]) {
+				if !ok || len(ret.Results) != 2 {
+					continue
+				}
+				if !isNilConst(ret.Results[1]) {
+					// `return msg, err` with err the decoder's own result: whatever the record holds, the caller is told
+					if c, isCall := ret.Results[1].(*ssa.Call); isCall && c.Call.StaticCallee() == dec {
+						r.held(rule, funcName(fn), "returned "+k.GoType+" was filled by "+k.Decoder+" without error", p.pos(ret.Pos()), "the decoder's own error is returned with the record")
+					}
 					continue
 				}
 				v := ret.Results[0]
